@@ -77,6 +77,10 @@ func genTSSCase(rt *rapid.T, p tssProfile) tssCase {
 	}
 	c.MaxDE = uint64(gen.Range(rt, "maxde", 3, 8))
 	c.Period = uint64(gen.Range(rt, "period", 1, 4))
+	longPeriod := p.gov && gen.Chance(rt, "longperiod", 1, 5)
+	if longPeriod {
+		c.Period = uint64(gen.Range(rt, "lperiod", 12, 20)) // long enough for a later, shorter-lived signing to expire first
+	}
 	c.MaxAttempt = uint64(gen.OneOf(rt, "maxatt", 1, 2, 3, 3, 4))
 	c.Fee = gen.OneOf(rt, "fee", []int64{0, 0}, []int64{10, 0}, []int64{7, 0}, []int64{3, 2})
 	c.InitDE = gen.Range(rt, "initde", 1, int(c.MaxDE))
@@ -138,6 +142,22 @@ func genTSSCase(rt *rapid.T, p tssProfile) tssCase {
 		if p.gov && gen.Chance(rt, "gov", 1, 14) {
 			if gk := gen.Uniform(rt, "govkind", 3); gk == 0 {
 				c.Ops = append(c.Ops, tssOp{K: "gov", Variant: "maxde", N: gen.OneOf(rt, "govde", 1, 2, 3, int(c.MaxDE)-1, int(c.MaxDE)+2)})
+			} else if gk == 1 && longPeriod {
+				// the signing period changes while signings are in flight: a signing opened under the long period, the period
+				// lowered, another signing opened (it expires earlier but is queued behind the first), nobody signs
+				c.Ops = append(c.Ops, tssOp{K: "desall", N: 3}, tssOp{K: "actall"}, tssOp{K: "end", N: 1},
+					tssOp{K: "req", M: 0, N: 7, Variant: "enough"}, tssOp{K: "end", N: 1},
+					tssOp{K: "gov", Variant: "period", N: gen.OneOf(rt, "govper", 1, 1, 2, 3, 6, 9)})
+				for j := 0; j < 4; j++ {
+					c.Ops = append(c.Ops, tssOp{K: "end", N: 1})
+				}
+				c.Ops = append(c.Ops, tssOp{K: "req", M: 0, N: 8, Variant: "enough"})
+				for j := uint64(0); j < c.Period+4; j++ {
+					c.Ops = append(c.Ops, tssOp{K: "end", N: 1})
+					if j%3 == 2 {
+						c.Ops = append(c.Ops, tssOp{K: "actall"}, tssOp{K: "desall", N: 1})
+					}
+				}
 			} else if gk == 1 {
 				c.Ops = append(c.Ops, tssOp{K: "gov", Variant: "maxattempt", N: gen.OneOf(rt, "govatt", 1, 1, 2, 3, 5)})
 			} else {
@@ -260,6 +280,11 @@ type tssWorld struct {
 	expected        map[string]sdk.Coins // expected balances of tracked accounts
 	maxDE           uint64               // current tss MaxDESize (changes through governance)
 	maxAttempt      uint64               // current tss MaxSigningAttempt (changes through governance)
+	period          uint64               // current tss SigningPeriod (changes through governance)
+	maxPeriod       uint64               // largest SigningPeriod seen
+	periodChanged   bool                 // from then on an attempt may time out LATER than its own expiry (never earlier)
+	lateTimeouts    int
+	draining        bool // the last idle block of the tail: everything must have been cleaned up by now
 	proposals       uint64
 	paramChanges    int
 	attemptAboveMax bool   // governance lowered MaxSigningAttempt below the attempt number of a waiting signing
@@ -313,6 +338,7 @@ func newTSSWorld(c tssCase, obs tssObs, v *pbt.Verdict) *tssWorld {
 	w.fee = coinsOf(c.Fee)
 	w.maxDE = c.MaxDE
 	w.maxAttempt = c.MaxAttempt
+	w.period, w.maxPeriod = c.Period, c.Period
 	w.escrow = sdk.NewCoins()
 	cfg := sim.Config{NumAccounts: c.N + 3, MintOff: true, GovVoting: 3 * time.Second,
 		Balance:     sdk.NewCoins(sdk.NewInt64Coin("uband", 1_000_000_000), sdk.NewInt64Coin("uatom", 1_000_000_000)),
@@ -671,12 +697,14 @@ func (w *tssWorld) run() {
 			// gov's end blocker executes it in the first block at/after the end of the 3 s voting period
 			ctx := w.ch.Ctx()
 			var pmsg sdk.Msg
-			if op.Variant == "maxde" || op.Variant == "maxattempt" {
+			if op.Variant == "maxde" || op.Variant == "maxattempt" || op.Variant == "period" {
 				tp := w.ch.App.TSSKeeper.GetParams(ctx)
 				if op.N < 1 {
 					op.N = 1
 				}
-				if op.Variant == "maxde" {
+				if op.Variant == "period" {
+					tp.SigningPeriod = uint64(op.N)
+				} else if op.Variant == "maxde" {
 					tp.MaxDESize = uint64(op.N)
 				} else {
 					tp.MaxSigningAttempt = uint64(op.N)
@@ -799,7 +827,12 @@ func (w *tssWorld) run() {
 		maxAtt = 5 // governance may raise the maximum up to 5 during a history
 	}
 	tail := int(maxAtt*(w.c.Period+1) + 2)
+	if w.periodChanged {
+		// expirations are handled in queue order: after a change of the period an attempt can wait for the ones queued before it
+		tail = int(2*maxAtt*(w.maxPeriod+1) + 6)
+	}
 	for i := 0; i < tail; i++ {
+		w.draining = i == tail-1
 		if !flush(1) {
 			return
 		}
@@ -838,7 +871,7 @@ func (w *tssWorld) observe(block []*builtTx, res *sim.BlockResult) bool {
 			case "request_signature":
 				sid, attempt := parseU(sim.Attr(e, "signing_id")), parseU(sim.Attr(e, "attempt"))
 				addrs, pds, pes, mids := sim.Attrs(e, "address"), sim.Attrs(e, "pub_d"), sim.Attrs(e, "pub_e"), sim.Attrs(e, "member_id")
-				att := &mAttempt{created: h, expiry: h + int64(w.c.Period), submitted: map[string]bool{}}
+				att := &mAttempt{created: h, expiry: h + int64(w.period), submitted: map[string]bool{}}
 				if w.obs.c09 {
 					// reference committee: partial Fisher-Yates over the members that are active and hold a queued nonce,
 					// in member-id order, driven by DRBG(rolling seed, signing id || attempt, chain id); result sorted by id
@@ -1143,16 +1176,22 @@ func (w *tssWorld) observe(block []*builtTx, res *sim.BlockResult) bool {
 			}
 			continue
 		}
-		s.timeouts++
-		for _, a := range e.idle {
-			if activeBefore[a] {
-				wantDeact[a] = true
-			}
-		}
 		failedNow := false
 		for _, f := range endFailed {
 			if f == id {
 				failedNow = true
+			}
+		}
+		if w.periodChanged && !failedNow && !retriedInEnd[id] {
+			// after a change of the signing period the time-out may come later than the attempt's own expiry (the statement
+			// requires "exactly then" only while the parameter is unchanged); termination is still checked at the end
+			w.lateTimeouts++
+			continue
+		}
+		s.timeouts++
+		for _, a := range e.idle {
+			if activeBefore[a] {
+				wantDeact[a] = true
 			}
 		}
 		switch {
@@ -1255,7 +1294,9 @@ func (w *tssWorld) compareState(h int64) {
 			w.fail(w.obs.c10, "C10/status-mismatch", "signing %d chain status=%v attempt=%d, model status=%v attempt=%d (height %d)", id, sg.Status, sg.CurrentAttempt, s.status, s.attempt, h)
 		}
 		for an, att := range s.attempts {
-			if att.expiry <= h {
+			// after a change of the signing period expirations are handled in queue order, possibly later than an attempt's
+			// own expiry: interim data is then only required to be gone once the history has run out (w.draining)
+			if att.expiry <= h && (!w.periodChanged || w.draining) {
 				if _, err := k.GetSigningAttempt(ctx, tss.SigningID(id), an); err == nil {
 					w.fail(w.obs.c10, "C10/interim-left", "signing %d attempt %d (expiry %d) still has its SigningAttempt at height %d", id, an, att.expiry, h)
 				}
@@ -1327,6 +1368,12 @@ func (w *tssWorld) finish() {
 	}
 	if w.internalGov > 0 {
 		v.Class("internal-content-via-governance")
+	}
+	if w.periodChanged {
+		v.Class("signing-period-changed")
+	}
+	if w.lateTimeouts > 0 {
+		v.Class("time-out-later-than-own-expiry")
 	}
 	if w.idsSkipped {
 		v.Class("signing-ids-jumped")
@@ -1435,6 +1482,13 @@ func (w *tssWorld) refreshParams() {
 	ctx := w.ch.Ctx()
 	if m := w.ch.App.TSSKeeper.GetParams(ctx).MaxDESize; m != w.maxDE {
 		w.maxDE = m
+		w.paramChanges++
+	}
+	if m := w.ch.App.TSSKeeper.GetParams(ctx).SigningPeriod; m != w.period {
+		w.period, w.periodChanged = m, true
+		if m > w.maxPeriod {
+			w.maxPeriod = m
+		}
 		w.paramChanges++
 	}
 	if m := w.ch.App.TSSKeeper.GetParams(ctx).MaxSigningAttempt; m != w.maxAttempt {
